@@ -53,6 +53,7 @@ lyplg_type_store_date_and_time(const struct ly_ctx *ctx, const struct lysc_type 
         struct ly_err_item **err)
 {
     LY_ERR ret = LY_SUCCESS;
+    struct lysc_type_str *type_dat = (struct lysc_type_str *)type;
     struct lyd_value_date_and_time *val;
     uint32_t i;
     char c, *str = NULL;
@@ -109,6 +110,12 @@ lyplg_type_store_date_and_time(const struct ly_ctx *ctx, const struct lysc_type 
     if (ly_time_str2time(str, &val->time, &val->fractions_s)) {
         ret = ly_err_new(err, LY_EVALID, 0, NULL, NULL, "%s", ly_last_logmsg());
         goto cleanup;
+    }
+
+    if (!(options & LYPLG_TYPE_STORE_ONLY)) {
+        /* validate the pattern restrictions, the conversion checks only the numbers it reads */
+        ret = lyplg_type_validate_patterns(type_dat->patterns, value, value_len, err);
+        LY_CHECK_GOTO(ret, cleanup);
     }
 
     if (!strncmp(((char *)value + value_len) - 6, "-00:00", 6)) {
